@@ -220,4 +220,86 @@ theorem u32_enc (name : String) (v : Vals) (x : Nat) (hg : v.get name = .ok (.in
     (by rw [fitsInt_unsigned, Int.sub_zero, fdiv_one]; omega)
   rw [this, Int.sub_zero, fdiv_one, natcast_mod_toNat x _ (by omega), bytesOf_4_big]
 
+/-! ## version 2 pieces -/
+
+set_option maxRecDepth 100000 in
+theorem hdr2_or : ∀ tn < 8, ∀ batch < 2, ∀ trxn < 64,
+    (((((0 ||| 2 <<< 12) ||| 0) ||| tn <<< 8) ||| batch <<< 7) ||| 0) ||| trxn <<< 0 = 8192 + tn * 256 + batch * 128 + trxn := by
+  decide +kernel
+
+set_option maxRecDepth 100000 in
+theorem hdr2b_or : ∀ tn < 8, ∀ batch < 2, ∀ shadow < 2, ∀ trxn < 64,
+    (((((0 ||| 0) ||| 0) ||| tn <<< 8) ||| batch <<< 7) ||| shadow <<< 6) ||| trxn <<< 0
+      = tn * 256 + batch * 128 + shadow * 64 + trxn := by
+  decide +kernel
+
+theorem hdr2_enc (tn batch trxn : Nat) (v : Vals) (h1 : tn < 8) (h2 : batch < 2) (h3 : trxn < 64)
+    (g1 : v.get "tn" = .ok (.int tn)) (g2 : v.get "batch" = .ok (.int batch)) (g3 : v.get "trxn" = .ok (.int trxn)) :
+    fieldTo hdr2 v = .ok (hdr2Primary tn batch trxn) := by
+  have he : bitsEnc [(⟨some "ver", 4, some 2⟩, 12), (⟨none, 1, none⟩, 11), (⟨some "tn", 3, none⟩, 8),
+      (⟨some "batch", 1, none⟩, 7), (⟨none, 1, none⟩, 6), (⟨some "trxn", 6, none⟩, 0)] v 0
+      = .ok (8192 + tn * 256 + batch * 128 + trxn) := by
+    have e2 : ((2 : Int) % ((2 ^ 4 : Nat) : Int)).toNat = 2 := by decide
+    simp only [bitsEnc, bitEnc, g1, g2, g3, e2, natcast_mod_toNat tn (2 ^ 3) h1, natcast_mod_toNat batch (2 ^ 1) h2,
+      natcast_mod_toNat trxn (2 ^ 6) h3]
+    rw [hdr2_or tn h1 batch h2 trxn h3]
+  have := fieldTo_bits_eval 2 false _ v 2 _ _ hdr2_derive he (by omega)
+  simp only [hdr2, this, bytesOf_2_big, hdr2Primary]
+  congr 2
+  · congr 1; omega
+  · congr 1; omega
+
+/-- the header of a batched sub-PDU -/
+def hdr2b : FDef := .bits .always 2 false [⟨none, 4, none⟩, ⟨none, 1, none⟩, ⟨some "tn", 3, none⟩,
+  ⟨some "batch", 1, none⟩, ⟨some "shadow", 1, none⟩, ⟨some "trxn", 6, none⟩]
+
+theorem hdr2b_derive : bitsDerive 2 false [⟨none, 4, none⟩, ⟨none, 1, none⟩, ⟨some "tn", 3, none⟩,
+      ⟨some "batch", 1, none⟩, ⟨some "shadow", 1, none⟩, ⟨some "trxn", 6, none⟩] = .ok (2, [(⟨none, 4, none⟩, 12),
+      (⟨none, 1, none⟩, 11), (⟨some "tn", 3, none⟩, 8), (⟨some "batch", 1, none⟩, 7), (⟨some "shadow", 1, none⟩, 6),
+      (⟨some "trxn", 6, none⟩, 0)]) := rfl
+
+theorem hdr2b_enc (tn batch shadow trxn : Nat) (v : Vals) (h1 : tn < 8) (h2 : batch < 2) (h4 : shadow < 2) (h3 : trxn < 64)
+    (g1 : v.get "tn" = .ok (.int tn)) (g2 : v.get "batch" = .ok (.int batch)) (g4 : v.get "shadow" = .ok (.int shadow))
+    (g3 : v.get "trxn" = .ok (.int trxn)) :
+    fieldTo hdr2b v = .ok (hdr2Batched tn batch shadow trxn) := by
+  have he : bitsEnc [(⟨none, 4, none⟩, 12), (⟨none, 1, none⟩, 11), (⟨some "tn", 3, none⟩, 8),
+      (⟨some "batch", 1, none⟩, 7), (⟨some "shadow", 1, none⟩, 6), (⟨some "trxn", 6, none⟩, 0)] v 0
+      = .ok (tn * 256 + batch * 128 + shadow * 64 + trxn) := by
+    simp only [bitsEnc, bitEnc, g1, g2, g3, g4, natcast_mod_toNat tn (2 ^ 3) h1, natcast_mod_toNat batch (2 ^ 1) h2,
+      natcast_mod_toNat shadow (2 ^ 1) h4, natcast_mod_toNat trxn (2 ^ 6) h3]
+    rw [hdr2b_or tn h1 batch h2 shadow h4 trxn h3]
+  have := fieldTo_bits_eval 2 false _ v 2 _ _ hdr2b_derive he (by omega)
+  simp only [hdr2b, this, bytesOf_2_big, hdr2Batched]
+  congr 2
+  · congr 1; omega
+  · congr 1; omega
+
+/-- a signed one-octet field -/
+theorem i8_enc (name : String) (v : Vals) (x : Int) (hg : v.get name = .ok (.int x)) (h1 : -128 ≤ x) (h2 : x ≤ 127) :
+    fieldTo (.int name .always 1 .big true 0 1) v = .ok [i8 x] := by
+  have := fieldTo_int_eval name 1 .big true 0 1 v x hg (by decide)
+    (by rw [fitsInt_signed _ _ (by decide), Int.sub_zero, fdiv_one]; omega)
+  rw [this, Int.sub_zero, fdiv_one, bytesOf_1, i8]
+  have : ((256 ^ 1 : Nat) : Int) = 256 := by decide
+  rw [this]
+  congr 2; omega
+
+/-- `Spare('spare', len=3)` with the default filler -/
+theorem spare3_enc (v : Vals) : fieldTo (.spare "spare" .always (.fixed 3) [0]) v = .ok [0, 0, 0] := by
+  simp [fieldTo, fieldToCore, getPres, getLen, fillerBytes, LenD.selfLen]
+
+/-- a sequence of items each of which encodes to a known layout -/
+theorem seqEnc_flat {α : Type} (enc : Vals → Except Err (List Nat)) (f : α → Vals) (lay : α → List Nat) :
+    ∀ (items : List α), (∀ a ∈ items, enc (f a) = .ok (lay a)) →
+      seqEnc enc (items.map (fun a => Val.dict (f a))) = .ok (items.flatMap lay)
+  | [], _ => rfl
+  | a :: rest, h => by
+    simp only [List.map_cons, seqEnc, h a (List.mem_cons_self ..),
+      seqEnc_flat enc f lay rest (fun b hb => h b (List.mem_cons_of_mem _ hb)), List.flatMap_cons]
+
+theorem fieldTo_seq_eval (name : String) (item : List FDef) (v : Vals) (items : List Val) (out : List Nat)
+    (hg : Vals.get v name = .ok (.list items)) (he : seqEnc (fun x => envTo item x) items = .ok out) :
+    fieldTo (.seq name .always .rest item) v = .ok out := by
+  simp [fieldTo, fieldToCore, getPres, Vals.getList, hg, he, LenD.selfLen]
+
 end OsmoVerif.Codec
